@@ -67,6 +67,28 @@ package proto
 //@ interface ColInput.Rows(c) (n)
 //@   ensures n == c.nrows && 0 <= n
 
+//@ -- Type() reports the column type string and has no effect
+//@ interface ColInput.Type(c) (t)
+//@ interface ColResult.Type(c) (t)
+//@ interface Column.Type(c) (t)
+//@ interface ColumnOf.Type(c) (t)
+//@ interface ColInput.EncodeColumn(c, b)
+//@   requires b != nil
+//@   modifies b.Buf
+//@   ensures appendsOnly(b)
+//@ interface ColInput.WriteColumn(c, w)
+//@   requires w != nil && wRI(w)
+//@   modifies w.bufOffset, w.vec, w.buf.Buf
+//@   ensures wRI(w) && appendsOnly(w.buf)
+//@ -- Prepare rebuilds derived encoder state; the logical row count is what the caller appended
+//@ interface Preparable.Prepare(c) (err)
+//@ -- a result sink: the block's row/column counts it is handed were validated against the caps
+//@ interface Result.DecodeResult(s, r, version, b) (err)
+//@   requires r != nil && 0 <= b.Rows && b.Rows <= maxRowsInBLock && 0 <= b.Columns
+//@   modifies all(s), r.pos, r.failed, r.b.Buf
+//@   ensures err == nil ==> r.failed == old(r.failed)
+//@   ensures old(r.pos) <= r.pos && r.pos <= r.end
+
 //@ -- optional column capabilities reached by type assertion: they touch neither the row count nor
 //@ -- anything but the stream / the output buffer
 //@ interface StateDecoder.DecodeState(c, r) (err)
@@ -403,3 +425,62 @@ package proto
 //@   requires e != nil
 //@   modifies e.Values
 //@   ensures len(e.Values) == old(len(e.Values)) + 1 {appends-one}
+
+// ---------------------------------------------------------------------------
+// Blocks.  Decoding validates the counts against the caps BEFORE anything is allocated from them
+// (that is the precondition every DecodeColumn relies on, C06); encoding refuses columns whose row
+// count differs from the block's and only ever appends (C01/C02).
+
+//@ contract (b *Block) End() (r) props(C03,C06)
+//@   requires b != nil
+//@   ensures r == (b.Columns == 0 && b.Rows == 0)
+
+//@ contract (b *Block) DecodeRawBlock(r, version, target) (err) props(C01,C06,C07,C08)
+//@   requires b != nil && r != nil
+//@   modifies b.Columns, b.Rows, all(target), r.pos, r.failed, r.b.Buf
+//@   ensures err == nil ==> 0 <= b.Columns && b.Columns <= maxColumnsInBlock && 0 <= b.Rows && b.Rows <= maxRowsInBLock [C06] {counts-within-caps}
+//@   ensures err == nil && target == nil ==> b.Rows == 0 [C06,C18] {rows-need-a-target}
+//@   ensures err == nil ==> r.failed == old(r.failed) [C07]
+//@   ensures old(r.pos) <= r.pos && r.pos <= r.end [C06,C07]
+//@ loop 0 (i)
+//@   modifies r.pos, r.failed, r.b.Buf
+//@   invariant 0 <= i && r.failed == old(r.failed) && old(r.pos) <= r.pos && r.pos <= r.end
+
+//@ contract (b *Block) DecodeBlock(r, version, target) (err) props(C01,C06,C07,C08)
+//@   requires b != nil && r != nil
+//@   modifies b.Info, b.Columns, b.Rows, all(target), r.pos, r.failed, r.b.Buf
+//@   ensures err == nil ==> 0 <= b.Columns && b.Columns <= maxColumnsInBlock && 0 <= b.Rows && b.Rows <= maxRowsInBLock [C06] {counts-within-caps}
+//@   ensures err == nil ==> r.failed == old(r.failed) [C07]
+//@   ensures old(r.pos) <= r.pos && r.pos <= r.end [C06,C07]
+
+//@ valid (c InputColumn): c.Data != nil
+//@ contract (c InputColumn) EncodeStart(buf, version) props(C01,C02)
+//@   requires buf != nil
+//@   modifies buf.Buf
+//@   ensures appendsOnly(buf) {append-only}
+
+//@ contract (b Block) EncodeRawBlock(buf, version, input) (err) props(C01,C02,C16)
+//@   requires buf != nil
+//@   modifies buf.Buf, all(input)
+//@   ensures appendsOnly(buf) {append-only}
+//@ loop 0 (rangeindex)
+//@   modifies buf.Buf, all(input)
+//@   invariant -1 <= rangeindex && rangeindex < len(input)
+//@   invariant len(buf.Buf) >= old(len(buf.Buf)) && forall k in 0..old(len(buf.Buf)) :: buf.Buf[k] == old(buf.Buf[k])
+//@   invariant rangeindex >= 0 ==> input[rangeindex].Data.nrows == b.Rows {each-encoded-column-has-the-block-row-count}
+
+//@ contract (b Block) EncodeBlock(buf, version, input) (err) props(C01,C02)
+//@   requires buf != nil
+//@   modifies buf.Buf, all(input)
+//@   ensures appendsOnly(buf) {append-only}
+
+//@ -- the vectored path performs the same steps per column as EncodeRawBlock (row-count check,
+//@ -- header, Prepare, nothing more for an empty column, state, data) and keeps the writer's invariant
+//@ contract (b Block) WriteBlock(w, version, input) (err) props(C02,C09,C14)
+//@   requires w != nil && wRI(w)
+//@   modifies w.bufOffset, w.vec, w.buf.Buf, all(input)
+//@   ensures wRI(w) {writer-invariant-kept}
+//@ loop 0 (rangeindex)
+//@   modifies w.bufOffset, w.vec, w.buf.Buf, all(input)
+//@   invariant -1 <= rangeindex && rangeindex < len(input) && wRI(w)
+//@   invariant rangeindex >= 0 ==> input[rangeindex].Data.nrows == b.Rows {each-written-column-has-the-block-row-count}
